@@ -143,7 +143,7 @@ func driveC10(c *h.Ctx) error {
 		}
 	} else {
 		cases = append(cases, ccGenTriggers()...)
-		for _, gc := range ccGenRandom(c.Rng.Fork(21), c.Pick(600, 30000)) {
+		for _, gc := range ccGenRandom(c.Rng.Fork(21), c.Pick(600, 8000)) {
 			// keep the random scenarios that exercise a cancellation or a concurrent Close
 			for _, st := range gc.Sc.Steps {
 				if st.Trig != 0 {
@@ -152,7 +152,7 @@ func driveC10(c *h.Ctx) error {
 				}
 			}
 		}
-		n := c.Pick(40, 600)
+		n := c.Pick(40, 300)
 		for i := 0; i < n; i++ {
 			stress = append(stress, c10Stress{Seed: c.Seed*100000 + uint64(i), Goroutines: 8, Calls: 25, MaxDelayUS: 50 + 40*(i%20), MaxTimeUS: 100 + 100*(i%20)})
 		}
